@@ -281,11 +281,13 @@ func VerifyCosmosHeader(myHeader *CosmosHeader, info *CosmosEpochSwitchInfo) err
 		return fmt.Errorf("VerifyCosmosHeader, the size of precommits is not right!")
 	}
 	talliedVotingPower := int64(0)
-	for _, commitSig := range myHeader.Commit.Precommits {
+	for idx, commitSig := range myHeader.Commit.Precommits {
 		if commitSig == nil {
 			continue
 		}
-		idx := commitSig.ValidatorIndex
+		if commitSig.ValidatorIndex != idx {
+			return fmt.Errorf("VerifyCosmosHeader, precommit %d carries validator index %d", idx, commitSig.ValidatorIndex)
+		}
 		_, val := valset.GetByIndex(idx)
 		if val == nil {
 			return fmt.Errorf("VerifyCosmosHeader, validator %d doesn't exist!", idx)
